@@ -72,6 +72,7 @@ let run () =
   let hid = ref "" and idx = ref 0 and dead = ref false in
   let st : state option ref = ref None in
   let govfee = ref Z0 in
+  let only_ed25519 = ref false in     (* the consensus parameters of InitChain admit ed25519 validator keys only *)
   (* header accumulation *)
   let ma = ref { m_fee = []; m_pool = []; m_pos = []; m_dao = [] } in
   let pp = ref None and ap = ref None and acl = ref [] and dao_owner = ref [] and dao_tokens = ref Z0 in
@@ -89,7 +90,8 @@ let run () =
       | "H" :: id :: _ ->
         hid := id; idx := 0; dead := false; st := None; accs := []; gvals := []; pkof := [];
         ma := { m_fee = bz (field line "fee"); m_pool = bz (field line "pool"); m_pos = bz (field line "pos"); m_dao = bz (field line "dao") };
-        govfee := zo (field line "govfee")
+        govfee := zo (field line "govfee"); only_ed25519 := false
+      | ["PKT"; "ed25519"] -> only_ed25519 := true
       | ["PP"; a; b; c; d; e; f; g; h; i] ->
         pp := Some { p_unstaking_time = zo a; p_max_validators = zo b; p_min_stake = zo c; p_max_evidence_age = zo d;
                      p_window = zo e; p_min_signed = zo f; p_downtime_jail = zo g; p_slash_ds = zo h; p_slash_dt = zo i }
@@ -136,7 +138,7 @@ let run () =
                      t_multi_count = zo (field line "multi"); t_signed_by = bz (field line "by");
                      t_mutated = (field line "mut" = "1"); t_sig_empty = (field line "sigempty" = "1");
                      t_in_index = (field line "dup" = "1"); t_gov_fee = !govfee } in
-           (match deliver_tx s t with
+           (match deliver_tx_cp !only_ed25519 s t with
             | DOk s1 -> st := Some s1; out "ok"
             | DRejected s1 -> st := Some s1; out "err"
             | DHandlerErr s1 -> st := Some s1; out "err")
